@@ -921,6 +921,15 @@ impl<const N: usize, T> CircularBuffer<N, T> {
         let drop_from = add_mod(self.start, range.start, N);
         let drop_to = add_mod(self.start, range.end, N);
 
+        // Remove the range from the buffer *before* running any destructor: if one of them
+        // panics, the elements in the range are not part of the buffer anymore, and therefore
+        // they cannot be dropped a second time.
+        if range.end < self.size {
+            // The range is at the front of the buffer
+            self.start = drop_to;
+        }
+        self.size -= range.len();
+
         let (right, left) = if drop_from < drop_to {
             (&mut self.items[drop_from..drop_to], &mut [][..])
         } else {
@@ -1834,7 +1843,7 @@ impl<const N: usize, T> CircularBuffer<N, T> {
         // initialized. The `size` of the buffer is shrunk before dropping, so no value will be
         // dropped twice in case of panics.
         unsafe { self.drop_range(drop_range) };
-        self.size = len;
+        debug_assert_eq!(self.size, len);
     }
 
     /// Shortens the buffer, keeping only the back `len` elements and dropping the rest.
@@ -1869,8 +1878,7 @@ impl<const N: usize, T> CircularBuffer<N, T> {
         // initialized. The `start` of the buffer is shrunk before dropping, so no value will be
         // dropped twice in case of panics.
         unsafe { self.drop_range(drop_range) };
-        self.start = add_mod(self.start, drop_len, N);
-        self.size = len;
+        debug_assert_eq!(self.size, len);
     }
 
     /// Drops all the elements in the buffer.
